@@ -705,6 +705,14 @@ func (l *Limit) MarshalJSON() ([]byte, error) {
 
 type limits struct {
 	ids []uint32
+
+	// only for the lists of ids loaded from disk (PairV2)
+	next []byte // key of the last id loaded from disk, the next page starts behind it
+	all  bool   // the side is loaded from disk completely
+}
+
+func (l *limits) clone() *limits {
+	return &limits{ids: l.ids[:len(l.ids):len(l.ids)], next: l.next, all: l.all}
 }
 
 type orderList struct {
